@@ -54,7 +54,7 @@ EXPECT = {
     'H2': [('FixtureConic::Forward', 'y')],
     'I1': [('FixtureHarm::T', 'invR')],
     'DSP': [('FixtureHarm::Value', 'Engine<FULL>')],
-    'SW1': [('FixtureLint::Use', 'Cell(m,n)')],
+    'SW1': [('FixtureLint::Use', 'Cell(m,n)'), ('FixtureLint::Wrap', 'Inner(exact as extendp)')],
     'N1': [('FixtureLint::Fold', 'lon->sincosd')],
     'D3': [('FixtureLint::Newton', 'ssig/sig')],
     'OV1': [('FixtureLint::LengthOk', 'product@')],
